@@ -166,6 +166,29 @@ def check_config(ctx, F, cfg):
     if dest["p"]:
         raise Undecided("fetch_add result stored into a projection")
     count_local = dest["l"]
+    # the value that goes into the name is the value the atomic read-modify-write returned: the local receiving it (and every
+    # local it is copied into) is never assigned again -- a later `count += 1` makes two calls able to reach the same number
+    carried = {count_local}
+    redefined = []
+    changed = True
+    while changed:
+        changed = False
+        for bj, sj, st in b.stmts():
+            if st["s"] == "assign" and not st["lhs"]["p"] and st["rv"]["r"] in ("use", "cast"):
+                q = operand_place(st["rv"]["o"])
+                if q is not None and not q["p"] and q["l"] in carried and st["lhs"]["l"] not in carried:
+                    carried.add(st["lhs"]["l"])
+                    changed = True
+    for l in sorted(carried):
+        ds = b.defs().get(l, [])
+        extra = [d for d in ds if not (d[2] == "call" and l == count_local and d[0] == bi) and
+                 not (d[2] == "assign" and d[3]["r"] in ("use", "cast") and (operand_place(d[3]["o"]) or {}).get("l") in carried)]
+        if extra:
+            redefined.append("_%d (%s) at %s" % (l, b.local_name(l), [loc(b.blocks[d[0]]["term"]["sp"]) if d[1] == "term" else loc(b.blocks[d[0]]["stmts"][d[1]]["sp"]) for d in extra][:2]))
+    ctx.ob("C20.R1.counter-value-unmodified", FUNC + tag, cwhere, not redefined, "def-enumeration",
+           "locals holding the fetch_add result that are assigned again: %s" % redefined)
+    if redefined:
+        return
 
     # R2/R3: find Arguments::new, its template and argument array
     fmt_calls = [(i, t) for i, t in b.calls() if callee_name(t).startswith("std::fmt::Arguments::<'_>::new") or
